@@ -18,6 +18,19 @@ package bcl
 // What is not assumed and must be proved for every program: the operand stack
 // and the block stack never overflow.
 //
+// Diagnostics of the VM (C08): the position reported is the recorded source
+// position of the last byte of the instruction being executed (pc is past its operands).
+//@ group C08,C06
+//@ func (*vm).runtimeError
+//@   requires position_known: vm.prog != nil && vm.prog.linePos != nil && 1 <= vm.pc && vm.pc <= len(vm.prog.positions)
+//@   assert [C08] position_of_the_failing_instruction: at format#1: $pos == vm.prog.positions[vm.pc-1]
+//@   ensures is_error: result != nil
+//@   modifies nothing
+//@ func (*vm).warning
+//@   requires position_known: vm.prog != nil && vm.prog.linePos != nil && 1 <= vm.pc && vm.pc <= len(vm.prog.positions)
+//@   assert [C08] position_of_the_warned_instruction: at format#1: $pos == vm.prog.positions[vm.pc-1]
+//@   modifies nothing
+//
 //@ group C01,C02,C03,C04,C10,C06
 //@ func (*vm).run
 //@   requires prog_set: vm.prog != nil && vm.prog.linePos != nil
